@@ -736,6 +736,18 @@ def check(case, ctx):
                                 "persistent %s error reported as %r (errno "
                                 "%d)" % (kind, run["error"],
                                          run["error"].errno))
+    # (f) "when the error persists it ends with a TagCommandError ... or with
+    # the documented None/False result": with every exchange failing from
+    # position k on, an operation that reports success as True (format,
+    # protect, authenticate) does not report it
+    if not burst and "error" not in run and run.get("result") is True and \
+            op.split(":")[0].split("-")[0] in ("format", "protect", "auth"):
+        raise Violation("success-reported-despite-persistent-error",
+                        "%s %s returned True although no command was "
+                        "answered from exchange %d (%s) on; the fault-free "
+                        "operation has %d exchanges"
+                        % (fixture, op, k, (target_cmd or b"").hex()[:40],
+                           ref["n"]))
     # (e) bounded effort: with every exchange failing from position k on,
     # the operation gives up after a bounded number of attempts
     if not burst and run["n"] > k + 3 * max(ref["n"], 4) + 20:
